@@ -299,6 +299,26 @@ Theorem C01_text_iso_domain_sound : forall fo C1 body1 defs1 C2 body2 defs2,
         (PipelineFull.fo_mol fo1) (PipelineFull.fo_mol fo2) ms1 ms2.
 Proof. exact CGV.Compose.TextDomain.iso_domain_sound. Qed.
 
+(** the identity transcript (the aromaticity pass changes nothing) with every cut bond re-created with its own order
+    ([faithful]): NO hypothesis between the two runs is left - whenever both first resolve() of the model return with the
+    identity transcript, the returned molecules of the two strings are isomorphic *)
+Theorem C01_text_returned_iso_id : forall fo C1 C2 a1 defs1 B1 a2 defs2 B2,
+  wf_cut C1 -> wf_cut C2 -> CGV.Compose.AnyCut.same_mol C1 C2 ->
+  CGV.Compose.OrderIndep.heavy_payload C1 -> CGV.Compose.OrderIndep.heavy_payload C2 ->
+  CGV.Compose.TextIso.faithful C1 -> CGV.Compose.TextIso.faithful C2 ->
+  CGV.Compose.TextIso.written fo C1 a1 defs1 B1 -> CGV.Compose.TextIso.written fo C2 a2 defs2 B2 ->
+  exists st1 fd1 st2 fd2,
+    CGV.Compose.TextCutDefs.from_text fo (CGV.Compose.TextCut.cut_string a1 defs1) = Ok st1 /\ Pipeline.st_dicts st1 = [fd1] /\
+    CGV.Compose.TextCutDefs.from_text fo (CGV.Compose.TextCut.cut_string a2 defs2) = Ok st2 /\ Pipeline.st_dicts st2 = [fd2] /\
+    forall fo1 fo2 ms1 ms2,
+      PipelineFull.resolve_step_full (Pipeline.st_legacy st1) (Pipeline.is_all_atom st1) fd1 (Pipeline.st_mol st1) (Some (PipelineFull.fo_m3 fo1)) = Ok fo1 ->
+      PipelineFull.resolve_step_full (Pipeline.st_legacy st2) (Pipeline.is_all_atom st2) fd2 (Pipeline.st_mol st2) (Some (PipelineFull.fo_m3 fo2)) = Ok fo2 ->
+      sort_mapping (PipelineFull.fo_m4 fo1) = Ok ms1 -> sort_mapping (PipelineFull.fo_m4 fo2) = Ok ms2 ->
+      CGV.Compose.CutIsoCar.returned_iso_car CGV.Compose.ReturnedIso.after_sort_key C1 C2 (PipelineFull.fo_m3 fo1) (PipelineFull.fo_m4 fo1)
+        (PipelineFull.fo_m3 fo2) (PipelineFull.fo_m4 fo2) (PipelineFull.fo_mol fo1) (PipelineFull.fo_mol fo2) ms1 ms2.
+Proof. exact CGV.Compose.TextIso.text_returned_iso_id. Qed.
+Definition C01_text_returned_iso_id_nonvacuous := CGV.Compose.TextIsoExamples.ea_text_returned_iso_id.
+
 Print Assumptions C01_bonding_partial.
 Print Assumptions C01_bonding_step.
 Print Assumptions C01_disjointness_test_sound.
@@ -340,3 +360,5 @@ Print Assumptions C01_chain_text_level_nonvacuous.
 Print Assumptions C01_text_domain_sound.
 Print Assumptions C01_text_domain_class_zero.
 Print Assumptions C01_text_iso_domain_sound.
+Print Assumptions C01_text_returned_iso_id.
+Print Assumptions C01_text_returned_iso_id_nonvacuous.
